@@ -137,6 +137,7 @@ func Run(w *World, drv *lib.Driver, setup Setup, ops []*Op) ([]*Step, error) {
 	lines := setup.Lines(w.Root.Access)
 	nsetup := len(lines)
 	for _, o := range ops {
+		o.ResolveRefs(steps)
 		obs := w.Exec(o)
 		steps = append(steps, &Step{Op: o, Impl: obs.Line(), Obs: obs})
 		lines = append(lines, o.ModelLine(obs))
